@@ -638,7 +638,7 @@ func TestC14(t *testing.T) {
 		}
 	}
 	RunEnum(c, t, "single-op", len(singles), func(i int) c14Case { return singles[i] }, c14Check, true)
-	RunRapid(c, t, Sub[c14Case]{Kind: "sequence", Quick: 2_500, Thorough: 80_000, Gen: genC14, Check: c14Check})
+	RunRapid(c, t, Sub[c14Case]{Kind: "sequence", Quick: 6_000, Thorough: 80_000, Gen: genC14, Check: c14Check})
 	// report exported fields of reachable types that never got a value (should be none)
 	all := map[string]bool{}
 	var walk func(reflect.Type)
